@@ -67,6 +67,8 @@ def constructs(mdl: Model, t: str) -> List[str]:
     """construct tags of a type: the roles known findings are keyed by"""
     from .ref import Chunk, ArraySeg, PayloadSeg, OptSeg, StructSeg, CustomSeg
     tags = set()
+    if t not in mdl.plans:
+        return []
     for x in [t] + mdl.descendants(t):
         for n in mdl.chain(x):
             for seg in mdl.plans[n]:
@@ -275,7 +277,7 @@ def run_and_judge(prop: str, tier: str, seed: int, items: List[KItem], info: dic
     retry = [it for it in retry if not errors and it.cls != 'heavy']
     if retry:
         for it in retry:
-            mn = max(it.mdl.min_len(x) for x in [it.type] + it.mdl.descendants(it.type))
+            mn = max(it.mdl.min_len(x) for x in [it.type] + it.mdl.descendants(it.type)) if it.type in it.mdl.plans else 0
             newL = max(mn + 1, it.L - 2)
             it.first_status = it.result.status if it.result else 'missing'
             if newL < it.L:
